@@ -770,3 +770,60 @@ func GuardDump(c *Ctx, fn *ssa.Function) []string {
 	}
 	return out
 }
+
+// VerdictSweep (K1): every call in the module to a callee matching spec has its
+// boolean result looked at (tested by a branch or returned to the caller);
+// discarding it, or testing only the error of a callee that can answer
+// (false, nil), is a violation. Returns the number of call sites.
+func (c *Ctx) VerdictSweep(spec string, skip map[string]string) int {
+	n := 0
+	for _, fn := range c.P.AllFns {
+		for _, ci := range CallsIn(fn, spec) {
+			val, ok := ci.(ssa.Value)
+			if !ok {
+				continue
+			}
+			n++
+			c.Sites++
+			name := load.QualName(fn)
+			what := "boolean verdict of " + Callee(ci.Common()).Name + " is looked at"
+			if why, ok := skip[load.QualName(Top(fn))]; ok {
+				c.OK("K1", name, what, c.At(ci), "exempt: "+why)
+				continue
+			}
+			r := Results(val)
+			used := false
+			for _, t := range r.Tests(fn, false) {
+				if condUses(t.If.Cond, r, 'b', 0) {
+					used = true
+				}
+			}
+			for _, ret := range Returns(fn) {
+				for _, rv := range ret.Results {
+					if r.isRes(rv) == 'b' {
+						used = true
+					}
+				}
+			}
+			// stored into a variable/field that is read later (e.g. passed on): accept when any non-extract referrer exists
+			if !used {
+				for bv := range r.Bool {
+					if refs := bv.Referrers(); refs != nil {
+						for _, x := range *refs {
+							switch x.(type) {
+							case *ssa.Store, *ssa.Phi, ssa.CallInstruction, *ssa.MakeInterface:
+								used = true
+							}
+						}
+					}
+				}
+			}
+			if used {
+				c.OK("K1", name, what, c.At(ci), "")
+			} else {
+				c.Fail("K1", name, what, c.At(ci), "the boolean is discarded: a well-formed but wrong signature/key answers (false, nil)")
+			}
+		}
+	}
+	return n
+}
